@@ -14,10 +14,10 @@ import (
 
 func init() {
 	register("C10", false,
-		"Structural necessary conditions decided from source: (C10-private) every append to the slice GetOutbound returns is dominated, for that very message, by Header.Del of each mailbox-private key, where the private set is computed as the X-... constants package mailbox passes to Header.Set/Get/Del (so no private header - e.g. the local file path - can go on the air on any routing branch); (C10-route) a message is appended on the forwarder branch only under 'sole recipient is one of the announced forwarders', and on the CMS branch only when no forwarders were announced and the message is not P2P-only; deferred MIDs are skipped on every branch; (C10-answer) every answer other than Defer is dominated by the not-send-only edge, Reject only on the file-exists edge; (C10-session) the per-session deferral set is only written by Prepare (a fresh map) and SetDeferred; (C10-move) SetSent changes the file system through exactly one rename from out/<MID>.b2f to sent/<MID>.b2f; (C10-store) ProcessInbound flags the message unread before serialising it and stores it under in/<MID>.b2f. NOT decided: equivalence with a reference model over all histories (listings, counts, restart behaviour) - a property of run-time histories.",
+		"Structural necessary conditions decided from source: (C10-private) every append to the slice GetOutbound returns is dominated, for that very message, by Header.Del of each mailbox-private key, where the private set is computed as the X-... constants package mailbox passes to Header.Set/Get/Del (so no private header - e.g. the local file path - can go on the air on any routing branch); (C10-route) a message is appended on the forwarder branch only under 'sole recipient is one of the announced forwarders', and on the CMS branch only when no forwarders were announced and the message is not P2P-only (a guarding condition that is a call of a same-package predicate is read through that predicate: one case per return that can yield the value, parameters bound to the call's arguments); deferred MIDs are skipped on every branch; (C10-answer) every answer other than Defer is dominated by the not-send-only edge, Reject only on the file-exists edge; (C10-session) the per-session deferral set is only written by Prepare (a fresh map) and SetDeferred; (C10-move) SetSent changes the file system through exactly one rename from out/<MID>.b2f to sent/<MID>.b2f; (C10-store) ProcessInbound - itself or through same-package helpers in its static call closure, facts lifted to every call site of a helper - flags the message unread before serialising it and stores it under in/<MID>.b2f. NOT decided: equivalence with a reference model over all histories (listings, counts, restart behaviour) - a property of run-time histories.",
 		checkC10)
 	register("C11", true,
-		"Structural necessary conditions decided from source (the operating system's atomic rename is assumed): (C11-atomic) in package mailbox every call that creates, truncates or writes file content targets a path that the same function passes as the SOURCE of an os.Rename to the final name, and that rename is dominated by the success of the open, of every write and of the close (phi-aware nil reasoning over the merged error variable); no other function of the package calls a raw content writer, so AddOut, ProcessInbound and SetUnread can only publish complete files; (C11-temp) the temporary name starts with a dot and the folder loader skips dot files before opening them, so a temporary file left by a crash cannot break a listing nor answer 'already received'; (C11-move) marking sent is a single rename (same as C10-move). NOT decided: durability across power loss (fsync), directory corruption, behaviour of the rename system call itself.",
+		"Structural necessary conditions decided from source (the operating system's atomic rename is assumed): (C11-atomic) in package mailbox every call that creates, truncates or writes file content targets a path that the same function passes as the SOURCE of an os.Rename to the final name, and that rename is dominated by the success of the open, of every write and of the close (phi-aware nil reasoning over the merged error variable); no other function of the package calls a raw content writer, so AddOut, ProcessInbound and SetUnread (which must reach such a publishing function through static calls inside the package) can only publish complete files; (C11-temp) the temporary name starts with a dot and the folder loader skips dot files before opening them, so a temporary file left by a crash cannot break a listing nor answer 'already received'; (C11-move) marking sent is a single rename (same as C10-move). NOT decided: durability across power loss (fsync), directory corruption, behaviour of the rename system call itself.",
 		checkC11)
 	register("C12", true,
 		"Structural necessary condition decided from source by taint analysis over packages mailbox and fbb: sources are the values a remote station controls at the handler boundary - the *Message parameters of ProcessInbound and the Proposal parameters of GetInboundAnswer(s) and everything derived from them (MID(), header values); sinks are the path operands of every file-system call that creates, modifies, renames or deletes (os.OpenFile with write flags, WriteFile, Create, CreateTemp, Rename, Remove, Mkdir, Chmod, Truncate, Link, Symlink); a tainted value is sanitised only where its use is dominated by the pass edge of a recognised confinement check on that same value (a predicate that refuses path separators - '/' and '\\\\' - or filepath.IsLocal/Base). Any remote-derived path operand without such a check is reported with its derivation. SetSent/SetDeferred receive identifiers of local outbox files and are deliberately not sources; GetInboundAnswer only opens for reading and is not a sink. NOT decided: symlinks inside the mailbox, case-insensitive file systems, names the OS itself treats specially.",
@@ -246,14 +246,12 @@ func checkC11(c *Ctx, r *Report) {
 			continue
 		}
 		o := r.Add("C11-atomic", fnName(fn), "stores through an atomic writer", c.pos(fn.Pos()))
+		// the call of the atomic writer may sit in a same-package helper (static call closure)
 		found := false
-		for _, ci := range allCalls(fn) {
-			if callee := ci.Common().StaticCallee(); callee != nil && atomicHelpers[callee] {
+		for _, g := range newIPG2(c, pkg).closure(fn) {
+			if atomicHelpers[g] {
 				found = true
 			}
-		}
-		if atomicHelpers[fn] {
-			found = true
 		}
 		if found {
 			o.OK("the message file is written by a function that publishes by rename")
@@ -405,6 +403,17 @@ func checkC10(c *Ctx, r *Report) {
 		if len(keys) < 3 {
 			r.Fail("C10-private", "only %d mailbox-private header keys found (%v), expected X-FilePath, X-P2POnly, X-Unread", len(keys), keys)
 		}
+		// the parameter holding the forwarder addresses the remote announced (by type, not by name)
+		var fwsPar *ssa.Parameter
+		for _, p := range fn.Params {
+			if t, ok := p.Type().Underlying().(*types.Slice); ok && strings.HasSuffix(t.Elem().String(), "fbb.Address") {
+				fwsPar = p
+			}
+		}
+		if fwsPar == nil {
+			r.Fail("C10-route", "GetOutbound has no []fbb.Address parameter (anchor unresolved)")
+		}
+		ip := newIPG2(c, pkg)
 		// the slice that is returned
 		var appends []*ssa.Call
 		for _, ci := range callsTo(fn, false, "builtin.append") {
@@ -450,51 +459,31 @@ func checkC10(c *Ctx, r *Report) {
 					o.Bad("a message can be returned (and transmitted) with the mailbox-private header %s still set", k)
 				}
 			}
-			// routing
-			o := r.Add("C10-route", where, site+": routing condition", c.pos(ap.Pos()))
-			conds := condsAt(ap.Block())
-			var sole, noFw, hasFw, notP2P, isDeferredSkipped bool
-			for _, cd := range conds {
-				if call, ok := cd.V.(*ssa.Call); ok && callName(&call.Call) == "fbb.Message.IsOnlyReceiver" && cd.Truth {
-					sole = true
-				}
-				if b, ok := cd.V.(*ssa.BinOp); ok {
-					if lc, ok := b.X.(*ssa.Call); ok && callName(&lc.Call) == "builtin.len" && pathOf(lc.Call.Args[0]) == "fws" {
-						if k, isC := constInt(b.Y); isC && k == 0 {
-							gt := (b.Op == token.GTR && cd.Truth) || (b.Op == token.LEQ && !cd.Truth) || (b.Op == token.NEQ && cd.Truth) || (b.Op == token.EQL && !cd.Truth)
-							eq := (b.Op == token.GTR && !cd.Truth) || (b.Op == token.LEQ && cd.Truth) || (b.Op == token.EQL && cd.Truth) || (b.Op == token.NEQ && !cd.Truth)
-							if gt {
-								hasFw = true
-							}
-							if eq {
-								noFw = true
-							}
-						}
-					}
-					if b.Op == token.EQL && !cd.Truth {
-						if s, _ := constString(b.Y); s == "true" && strings.Contains(pathOf(b.X), "X-P2POnly") {
-							notP2P = true
-						}
-					}
-				}
-				if lk, ok := cd.V.(*ssa.Lookup); ok && !cd.Truth && strings.HasSuffix(pathOf(lk.X), ".deferred") {
-					isDeferredSkipped = true
-				}
+			// routing: one obligation per way the append can be reached. The guarding conditions are
+			// read through same-package predicates (ip_g2.go): a condition `pred(args)` is replaced by
+			// the returns of pred that can yield the required value, with the conditions dominating
+			// each return and pred's parameters bound to args.
+			alts := ip.guardsOf(ap.Block())
+			if len(alts) == 0 {
+				r.Add("C10-route", where, site+": routing condition", c.pos(ap.Pos())).Bad("the conditions guarding the append could not be enumerated (they never hold together): undecided")
 			}
-			// not(len(fws)==0 && p2pOnly) via exit/continue guards is not an exit region; the CMS branch
-			// is recognised by: no-forwarders edge + not-P2P established by a clause
-			if !notP2P {
-				notP2P = clauseExcludesP2P(c, fn, ap)
-			}
-			switch {
-			case !isDeferredSkipped:
-				o.Bad("a message deferred in this session can be returned again (no dominating 'not in deferred set' edge)")
-			case sole && hasFw:
-				o.OK("forwarder branch: appended only when forwarders were announced and the message's sole recipient is one of them")
-			case noFw && notP2P:
-				o.OK("CMS branch: appended only when no forwarders were announced and the message is not P2P-only")
-			default:
-				o.Bad("the message is appended without its routing condition (sole-recipient forwarder match: %v/%v; no forwarders: %v and not P2P-only: %v)", sole, hasFw, noFw, notP2P)
+			for _, w := range alts {
+				construct := site + ": routing condition"
+				if len(w.via) > 0 {
+					construct = site + " via " + strings.Join(w.via, ", ") + ": routing condition"
+				}
+				o := r.Add("C10-route", where, construct, c.pos(ap.Pos()))
+				rt := ip.routeOf(w, msg, fwsPar)
+				switch {
+				case !rt.notDeferred:
+					o.Bad("a message deferred in this session can be returned again (no dominating 'not in deferred set' edge)")
+				case rt.sole && rt.hasFw:
+					o.OK("forwarder branch: appended only when forwarders were announced and the message's sole recipient is one of them")
+				case rt.noFw && rt.notP2P:
+					o.OK("CMS branch: appended only when no forwarders were announced and the message is not P2P-only")
+				default:
+					o.Bad("the message is appended without its routing condition (sole-recipient forwarder match: %v/%v; no forwarders: %v and not P2P-only: %v)", rt.sole, rt.hasFw, rt.noFw, rt.notP2P)
+				}
 			}
 		}
 	}
@@ -717,42 +706,14 @@ func checkC10(c *Ctx, r *Report) {
 	if fn := c.Func(pkg, "(*DirHandler).ProcessInbound"); fn == nil {
 		r.Fail("C10-store", "anchor ProcessInbound not found")
 	} else {
+		// The steps may sit in ProcessInbound itself or in same-package helpers it calls (the
+		// per-message body is a natural helper): they are searched in its static call closure and
+		// tied together by data flow, see (*ipG2).inboundStore.
 		where := fnName(fn)
-		var setUnread, bytesCall ssa.CallInstruction
-		for _, ci := range callsTo(fn, false, "fbb.Header.Set") {
-			if k, _ := constString(ci.Common().Args[1]); k == "X-Unread" {
-				if v, _ := constString(ci.Common().Args[2]); v == "true" {
-					setUnread = ci
-				}
-			}
-		}
-		for _, ci := range callsTo(fn, false, "fbb.Message.Bytes") {
-			bytesCall = ci
-		}
-		r.Check("C10-store", where, "flagged unread before serialising", c.pos(fn.Pos()), setUnread != nil && bytesCall != nil && instrDominates(setUnread, bytesCall),
+		_, flagged, stored := newIPG2(c, pkg).inboundStore(fn)
+		r.Check("C10-store", where, "flagged unread before serialising", c.pos(fn.Pos()), flagged,
 			"Header.Set(X-Unread, true) dominates Message.Bytes()", "the stored copy is not flagged unread (the flag is set after serialising, or not at all)")
 		// stored under in/<MID>.b2f
-		stored := false
-		for _, ci := range allCalls(fn) {
-			callee := ci.Common().StaticCallee()
-			if callee == nil || !c.inModule(callee) || len(ci.Common().Args) == 0 {
-				continue
-			}
-			if !c.performs(callee, "os.Rename") {
-				continue
-			}
-			a := ci.Common().Args[0]
-			has := func(s string) bool {
-				return dependsOn(a, func(x ssa.Value) bool { cs, ok := constString(x); return ok && cs == s })
-			}
-			mid := dependsOn(a, func(x ssa.Value) bool {
-				call, ok := x.(*ssa.Call)
-				return ok && callName(&call.Call) == "fbb.Message.MID"
-			})
-			if has("/in/") && has(".b2f") && mid && bytesCall != nil && ci.Common().Args[1] == errFree(bytesCall) {
-				stored = true
-			}
-		}
 		r.Check("C10-store", where, "stored as in/<MID>.b2f", c.pos(fn.Pos()), stored,
 			"the serialised message is written to in/<MID>.b2f", "the serialised message is not written to in/<MID>.b2f")
 	}
@@ -858,47 +819,7 @@ func errFree(ci ssa.CallInstruction) ssa.Value {
 	return nil
 }
 
-// clauseExcludesP2P: every feasible edge into the append's block carries 'not P2P-only': the
-// edge condition (or a condition dominating the edge) is a false test of a value derived from
-// the X-P2POnly header. Edges ruled out by the integer conditions that dominate them (the
-// redundant len(fws) == 0 test after the forwarder branch) are ignored.
-func clauseExcludesP2P(c *Ctx, fn *ssa.Function, ap *ssa.Call) bool {
-	pr := newProver(c)
-	isP2P := func(v ssa.Value) bool {
-		return dependsOn(v, func(x ssa.Value) bool { s, ok := constString(x); return ok && s == "X-P2POnly" })
-	}
-	blk := ap.Block()
-	if len(blk.Preds) == 0 {
-		return false
-	}
-	for _, pred := range blk.Preds {
-		if !pr.edgeFeasible(pred, blk) {
-			continue
-		}
-		ok := false
-		for _, cd := range append(condsAt(pred), edgeCond(pred, blk)...) {
-			// the condition must be the comparison of the X-P2POnly header with "true", not holding
-			b, isB := cd.V.(*ssa.BinOp)
-			if !isB || (b.Op != token.EQL && b.Op != token.NEQ) {
-				continue
-			}
-			if s, _ := constString(b.Y); s != "true" {
-				continue
-			}
-			call, isCall := b.X.(*ssa.Call)
-			if !isCall || callName(&call.Call) != "fbb.Header.Get" || !isP2P(call.Call.Args[1]) {
-				continue
-			}
-			if (b.Op == token.EQL) != cd.Truth {
-				ok = true
-			}
-		}
-		if !ok {
-			return false
-		}
-	}
-	return true
-}
+// (the skip-clause form of 'not P2P-only' is decided by (*ipG2).edgesExcludeP2P in ip_g2.go)
 
 // ---- C12 --------------------------------------------------------------------------------------
 
